@@ -154,11 +154,10 @@ func (env *Env) sidOf(a Val) string {
 }
 
 func (env *Env) litEq(a Val, l string) string {
-	parts := []string{eq(sLen(a.S), fmt.Sprint(len(l)))}
-	for i := 0; i < len(l); i++ {
-		parts = append(parts, eq(sel(sArr(a.S), add(sOff(a.S), fmt.Sprint(i))), fmt.Sprint(l[i])))
+	if l == "" {
+		return eq(sLen(a.S), "0")
 	}
-	return and(parts...)
+	return "(streq_" + env.m.litArr(l) + " " + sArr(a.S) + " " + sOff(a.S) + " " + sHi(a.S) + ")"
 }
 
 func (env *Env) elemInfo(v Val) (string, types.Type) {
@@ -658,6 +657,12 @@ func (env *Env) trCall(e *E) Val {
 	case "TrimSpace":
 		d := env.view(arg(0))
 		return Val{S: "(trimA " + sArr(d.S) + " " + sOff(d.S) + " " + sHi(d.S) + ")", Sort: "Str", G: types.Typ[types.String]}
+	case "runeAt": // runeAt(s, P): rune decoded at absolute position P of s
+		d := env.view(arg(0))
+		return Val{S: "(runeAt " + sArr(d.S) + " " + arg(1).S + " " + sHi(d.S) + ")", Sort: "Int"}
+	case "runeW":
+		d := env.view(arg(0))
+		return Val{S: "(runeW " + sArr(d.S) + " " + arg(1).S + " " + sHi(d.S) + ")", Sort: "Int"}
 	case "sameStr": // structural identity of two string values (same array window)
 		a, b := env.view(arg(0)), env.view(arg(1))
 		return Val{S: eq(a.S, b.S), Sort: "Bool"}
@@ -819,6 +824,10 @@ func (m *Mod) ensureSpecFunc(sf *SpecFunc, from *Env) {
 	call := "(sf_" + sf.Name + " " + strings.Join(app, " ") + ")"
 	proof := fmt.Sprintf("(declare-fun sf_%s (%s) %s)\n(assert (forall (%s) (! (= %s %s) :pattern (%s))))", sf.Name, strings.Join(flat, " "), rs, strings.Join(qv, " "), call, obody.S, call)
 	// cex mode: transparent definition over the same flattened signature
-	cex := fmt.Sprintf("(define-fun sf_%s (%s) %s %s)", sf.Name, strings.Join(qv, " "), rs, obody.S)
+	kw := "define-fun"
+	if strings.Contains(obody.S, "(sf_"+sf.Name+" ") {
+		kw = "define-fun-rec"
+	}
+	cex := fmt.Sprintf("(%s sf_%s (%s) %s %s)", kw, sf.Name, strings.Join(qv, " "), rs, obody.S)
 	m.funcsDecl = append(m.funcsDecl, specDecl{proof, cex})
 }
